@@ -172,9 +172,10 @@ class RexDriver(Check):
               '(1-3 fragments over 7 character classes) whose run lengths '
               '{0,1,2,3,4,6} differ in one fragment or in all x 12 option '
               'points (variableLengthFrags off/on x 6)'),
-             ('two-shape', 'two shapes differing in one fragment class, and '
-              'two-shape quadruples / pairs of equal frequency, x '
-              'variableLengthFrags off/on (x 6 for the former)'),
+             ('two-shape', 'two shapes differing in one fragment class, '
+              'sets of 10-12 strings / 4-7 punctuation characters around the '
+              'group limits (x 12 option points), and two-shape quadruples / '
+              'pairs of equal frequency x variableLengthFrags off/on'),
              ('refine', 'E2: sets of 4-7 from pools of one common shape that '
               'make the fragment class change between passes (a-f / non-hex '
               'letters / digits / upper / non-ASCII digit / trailing newline '
@@ -239,6 +240,8 @@ class RexDriver(Check):
                 yield {'ex': xs, 'pts': 'family', 'forms': 'list'}
             for xs in A.tie_sets(tier):
                 yield {'ex': xs, 'pts': 'vlf', 'forms': 'list'}
+            for xs in A.boundary_sets():
+                yield {'ex': xs, 'pts': 'family', 'forms': 'list'}
         elif layer == 'refine':
             for c in self.refine_cases():
                 yield c
